@@ -92,6 +92,7 @@ class StreamReader:
         "_size",
         "_cursor",
         "_http_chunk_splits",
+        "_last_chunk_split",
         "_buffer",
         "_buffer_offset",
         "_eof",
@@ -126,6 +127,7 @@ class StreamReader:
         self._size = 0
         self._cursor = 0
         self._http_chunk_splits: collections.deque[int] | None = None
+        self._last_chunk_split = 0
         self._buffer: collections.deque[bytes] = collections.deque()
         self._buffer_offset = 0
         self._eof = False
@@ -321,10 +323,9 @@ class StreamReader:
         # the body transfer. Each offset is the offset of the end of a chunk.
         # "Logical" means bytes, accessible for a user.
         # If no chunks containing logical data were received, current position
-        # is difinitely zero.
-        pos = self._http_chunk_splits[-1] if self._http_chunk_splits else 0
-
-        if self.total_bytes == pos:
+        # is difinitely zero. (The last offset is remembered apart: the reader
+        # may have consumed the recorded ones already.)
+        if self.total_bytes == self._last_chunk_split:
             # We should not add empty chunks here. So we check for that.
             # Note, when chunked + gzip is used, we can receive a chunk
             # of compressed data, but that data may not be enough for gzip FSM
@@ -333,6 +334,7 @@ class StreamReader:
             return
 
         self._http_chunk_splits.append(self.total_bytes)
+        self._last_chunk_split = self.total_bytes
 
         # If we get too many small chunks before self._high_water is reached, then any
         # .read() call becomes computationally expensive, and could block the event loop
